@@ -52,7 +52,8 @@ REQUIRED = ["union_volume_checked", "level1_checked", "level2_checked", "levels_
             "two_arm_roots", "two_arm_sampled_levels", "overlapping_neighbours",
             "tangent_neighbours", "disjoint_neighbours", "growing_radii", "tapering_radii",
             "frontend_checked", "named_levels_checked", "same_skeleton_other_radii",
-            "zero_radius_tips", "far_exact_layouts", "other_length_units"]
+            "zero_radius_tips", "far_exact_layouts", "other_length_units",
+            "levels_as_numpy_integers", "failed_calls_before_measuring"]
 FLOOR = {"quick": 500, "thorough": 10000}
 SHARDS = {"quick": 8, "thorough": 16}
 TIMEOUT = {"quick": 400, "thorough": 3000}
@@ -225,6 +226,32 @@ def _classify(ctx, zz, r, pid):
             ctx.count("tapering_radii")
 
 
+def _level(ctx, acc, salt):
+    """The accuracy level as callers hold it: a Python int, or a numpy integer / 0-d array that
+    came out of an array of levels."""
+    if not isinstance(acc, int) or salt % 3 == 0:
+        return acc
+    ctx.count("levels_as_numpy_integers")
+    return [np.int64(acc), np.int32(acc), np.array(acc), np.intp(acc)][salt % 4]
+
+
+def _failed_call_first(ctx, acc):
+    """An earlier get_volume call at the same level that fails half-way (a table with 1-based ids
+    that was never re-based: the walk runs past the arrays). The caller catches the error."""
+    from swcgeom.analysis.volume import get_volume
+    from swcgeom.core import Tree
+
+    bad = Tree(4, id=np.array([1, 2, 3, 4], dtype=np.int32),
+               pid=np.array([0, 1, 1, 2], dtype=np.int32),
+               x=np.array([0, 2, -2, 4], dtype=np.float32), r=np.ones(4, dtype=np.float32))
+    try:
+        get_volume(bad, accuracy=acc)
+    except BaseException as e:
+        if isinstance(e, (KeyboardInterrupt, SystemExit)):
+            raise
+        ctx.count("failed_calls_before_measuring")
+
+
 def exec_union(ctx, case):
     from swcgeom.analysis import extract_feature
     from swcgeom.analysis.volume import get_volume
@@ -261,12 +288,15 @@ def exec_union(ctx, case):
     for acc in case["levels"]:
         if isinstance(acc, int) and acc >= 5 and two_arm:
             ctx.count("two_arm_sampled_levels")
+        if case["seed"] % 3 == 1:
+            _failed_call_first(ctx, acc)
+        acc_arg = _level(ctx, acc, case["seed"] + (acc if isinstance(acc, int) else 0))
         try:
             if case.get("frontend"):
-                got = float(fe.get("volume", accuracy=acc)[0])
+                got = float(fe.get("volume", accuracy=acc_arg)[0])
                 ctx.count("frontend_checked")
             else:
-                got = float(get_volume(tree, accuracy=acc))
+                got = float(get_volume(tree, accuracy=acc_arg))
         except BaseException as e:  # sdflit panics are BaseException
             if isinstance(e, (KeyboardInterrupt, SystemExit)):
                 raise
@@ -340,12 +370,15 @@ def exec_sums(ctx, case):
         ctx.count("same_skeleton_other_radii")
     fe = extract_feature(tree) if case.get("frontend") else None
     for acc, want, cnt in ((1, v1, "level1_checked"), (2, v2, "level2_checked")):
+        if case["tree"]["seed"] % 3 == 1:
+            _failed_call_first(ctx, acc)
+        acc_arg = _level(ctx, acc, case["tree"]["seed"] + acc)
         try:
             if case.get("frontend"):
-                got = float(fe.get("volume", accuracy=acc)[0])
+                got = float(fe.get("volume", accuracy=acc_arg)[0])
                 ctx.count("frontend_checked")
             else:
-                got = float(get_volume(tree, accuracy=acc))
+                got = float(get_volume(tree, accuracy=acc_arg))
         except BaseException as e:
             if isinstance(e, (KeyboardInterrupt, SystemExit)):
                 raise
